@@ -16,7 +16,7 @@ from ..numpy_utils import (
     _numpy_cache_blocklist,
 )
 from ..utils import AbstractTypeResolver
-from .synced_collection import SyncedCollection, _sc_resolver
+from .synced_collection import SyncedCollection, _detach_synced, _sc_resolver
 
 # Identifies sequences, which are the base type for this class.
 _sequence_resolver = AbstractTypeResolver(
@@ -198,6 +198,8 @@ class SyncedList(SyncedCollection, MutableSequence):
         """
         data = _convert_numpy(data)
         if _sequence_resolver.get_type(data) == "SEQUENCE":
+            # The new values must not change while they are merged in.
+            data = _detach_synced(data)
             if self._root is not None:
                 # A nested collection must be reset within the backend's
                 # current content, not within a possibly stale copy of it.
